@@ -17,6 +17,8 @@
     without handler or accessible variable: `C08_read_gate`, `C08_write_gate`).
 -/
 import CatVerif.Proofs.Log
+import CatVerif.Proofs.Steps.Found
+import CatVerif.Proofs.Steps.Resolve
 namespace Cat
 open St
 
@@ -85,5 +87,14 @@ theorem C09_no_run_handler (D : Desc) (s : St) (ht : s.cmdType = .run) (hr : (D.
 /-- non-vacuity: a one-command table whose command is disabled -/
 example : disabledByIndex [{ name := none, cmds := [{ (default : CmdD) with disable := true }], disable := false }] 0 = true := by
   decide
+
+/-- the functions that keep disabled entries out of the match state (`update_command`), never select them
+(`search_command`) and refuse test-only and handler-less requests (`command_found`) are the ones translated from the
+source on every run (translator items T9, T11) -/
+theorem C09_gates_generated (D : Desc) (s : St) :
+    updateCommand D s = Gen.update_command D (s.chkUb (decide (s.index < D.commandsNum))) ∧
+    searchCommand D s = Gen.search_command D (s.chkUb (decide (s.index < D.commandsNum))) ∧
+    commandFound D s = Gen.command_found D (s.chkUb s.cmd.isSome) :=
+  ⟨updateCommand_generated D s, searchCommand_generated D s, commandFound_generated D s⟩
 
 end Cat
